@@ -11,8 +11,8 @@ From PV Require Import Base.PySeq Base.Rx Base.RxFacts Expect.Model Expect.SpecF
 Theorem C12_run_output_complete :
   forall (rx : Type) (re_search : rx -> text -> nat -> option (nat * nat)),
   (forall r t p a b, re_search r t p = Some (a, b) -> a <= b) ->
-  forall fuel events evs,
-  let r := run rx re_search fuel events evs in
+  forall fuel Wd events evs, match Wd with Some w => 1 <= w | None => True end ->
+  let r := run rx re_search fuel Wd events evs in
   exists used, evs = used ++ r_rest r /\
     match r_stop r with
     | StopEof | StopTimeout => r_out r = data_of used
@@ -32,5 +32,5 @@ Print Assumptions C12_response_of_the_event.
 
 (** non-vacuity: a TIMEOUT event between two chunks does not duplicate the first chunk *)
 Example C12_timeout_event_no_duplicate :
-  r_out (run rx rx_search 10 [(PTimeout, RCall CbFalse)] [Data [65; 65]%N; Timeout; Data [66]%N; Eof]) = [65; 65; 66]%N.
+  r_out (run rx rx_search 10 None [(PTimeout, RCall CbFalse)] [Data [65; 65]%N; Timeout; Data [66]%N; Eof]) = [65; 65; 66]%N.
 Proof. vm_compute. reflexivity. Qed.
